@@ -240,17 +240,23 @@ fn add_extras(cx: &mut Ctx, stream: &mut gix_worktree_stream::Stream, extras: &[
                     let mut f = std::fs::OpenOptions::new().write(true).open(&p2).expect("open fifo for writing");
                     let mut pos = 0;
                     let mut i = 0;
-                    while pos < data.len() {
+                    'pieces: while pos < data.len() {
                         let n = sizes[i % sizes.len()].clamp(1, 4096).min(data.len() - pos);
                         i += 1;
-                        f.write_all(&data[pos..pos + n]).expect("fifo write");
+                        if f.write_all(&data[pos..pos + n]).is_err() {
+                            break; // the reader went away (it must not: the oracle will see the short content)
+                        }
                         pos += n;
                         // wait until the reader took it, so that its next read sees exactly the next piece
+                        let t0 = std::time::Instant::now();
                         loop {
                             let mut avail: libc::c_int = 0;
                             unsafe { libc::ioctl(f.as_raw_fd(), libc::FIONREAD, &mut avail) };
                             if avail == 0 {
                                 break;
+                            }
+                            if t0.elapsed() > std::time::Duration::from_secs(3) {
+                                break 'pieces; // nobody reads any more
                             }
                             std::thread::yield_now();
                         }
@@ -611,6 +617,9 @@ struct TreeCase {
     extras: Vec<Extra>,
     sizes: Vec<usize>,
     with_attributes: bool,
+    /// the attributes only select the identity filter `burst` (content arrives in bursts, unknown length):
+    /// the reference is `git cat-file` of the blobs
+    identity_filter: bool,
 }
 
 fn diff_maps(
@@ -722,8 +731,8 @@ fn do_tree(cx: &mut Ctx, case: &TreeCase) {
     let (git_files, git_dirs) = untar(cx, &git_tar, "git").expect("untar git archive");
     cx.rep.git_checked(1);
     let mut expect: BTreeMap<Vec<u8>, (u8, Vec<u8>)> = git_files.clone();
-    if !case.with_attributes {
-        // without attributes the reference is ls-tree + cat-file, independent of git archive
+    if !case.with_attributes || case.identity_filter {
+        // without attributes (or with the identity filter only) the reference is ls-tree + cat-file, independent of git archive
         let mut m = BTreeMap::new();
         let mut req = String::new();
         for (_, _, id) in &leaves {
@@ -994,6 +1003,63 @@ fn gen_items(r: &mut Rng, depth: usize, budget: &mut usize, thorough: bool, big_
     v
 }
 
+fn max_file_len(items: &[Item]) -> usize {
+    items
+        .iter()
+        .map(|it| match it {
+            Item::File { content, .. } => content.bytes().len(),
+            Item::Dir { children, .. } => max_file_len(children),
+            _ => 0,
+        })
+        .max()
+        .unwrap_or(0)
+}
+
+/// A blob of 300 000 bytes behind a filter program that streams (reads a bit, writes a bit): the filter
+/// driver writes the whole blob to the program's stdin before it reads any of its output.
+fn probe_filter_large(cx: &mut Ctx) {
+    cx.counter += 1;
+    let n = cx.counter;
+    let repo = cx.repo.clone();
+    let sub = format!("t{n}");
+    let dir = repo.join(&sub);
+    std::fs::create_dir(&dir).unwrap();
+    std::fs::write(dir.join(".gitattributes"), b"*.burst filter=burst\n").unwrap();
+    let content = Content::Lcg(21, 300_000).bytes();
+    std::fs::write(dir.join("large.burst"), &content).unwrap();
+    git_ok(&repo, &["add", "--", &sub], None);
+    let tree = git_ok(&repo, &["write-tree", &format!("--prefix={sub}/")], None);
+    let repo2 = repo.clone();
+    let tree2 = tree.clone();
+    let r = with_deadline(std::time::Duration::from_secs(20), move || {
+        let repo = gix::open_opts(&repo2, gix::open::Options::isolated()).expect("open");
+        let id = gix::ObjectId::from_hex(tree2.as_bytes()).expect("hex");
+        let (mut stream, _) = repo.worktree_stream(id).expect("worktree_stream");
+        drain(&mut stream, &[8192]).1
+    });
+    cx.rep.oracle_only(&format!("filter-large tree {tree}"), true);
+    cx.rep.oracle_checked();
+    let op = format!("tree 8192 (300000 byte blob with `filter=burst`, tree {tree})");
+    match r {
+        None => cx.rep.oracle_failure(
+            "filter-program-deadlock-large-blob",
+            "worktree_stream() of a tree with a 300000 byte blob behind `filter.burst.smudge` (an identity filter that streams) did not deliver the entry within 20 s: gix-filter writes the whole blob to the filter's stdin before reading its stdout, both pipes fill up; git archive of the same tree finishes",
+            &op,
+        ),
+        Some(Err(m)) => cx.rep.oracle_failure("filter-large-panic", &m, &op),
+        Some(Ok(seen)) => {
+            let got = seen.iter().find(|s| s.path == b"large.burst").map(|s| s.content.clone());
+            if got.as_deref() != Some(&content[..]) {
+                cx.rep.oracle_failure(
+                    &format!("stream-differs large.burst tree {tree}"),
+                    &format!("large.burst: stream has {:?} bytes, git cat-file has {}", got.map(|g| g.len()), content.len()),
+                    &op,
+                );
+            }
+        }
+    }
+}
+
 fn gen_extra(r: &mut Rng, idx: usize, thorough: bool) -> Extra {
     let kind = *r.pick(&[1u8, 1, 1, 2, 3, 0]);
     let how = if kind == 0 {
@@ -1091,7 +1157,7 @@ fn corpus(cx: &mut Ctx) {
     bad[16] = 9;
     do_dec(cx, &bad, &[8]);
     // trees
-    do_tree(cx, &TreeCase { items: vec![], extras: vec![], sizes: vec![8192], with_attributes: false });
+    do_tree(cx, &TreeCase { items: vec![], extras: vec![], sizes: vec![8192], with_attributes: false, identity_filter: false });
     do_tree(
         cx,
         &TreeCase {
@@ -1114,6 +1180,7 @@ fn corpus(cx: &mut Ctx) {
             extras: vec![Extra { path: b"added".to_vec(), kind: 1, id: [0; 20], how: How::File, content: Content::Lcg(2, 131_071) }],
             sizes: vec![4096, 3, 70_000],
             with_attributes: false,
+            identity_filter: false,
         },
     );
     // two symbolic links in one archive; a link target that is not in normal form
@@ -1128,6 +1195,7 @@ fn corpus(cx: &mut Ctx) {
             extras: vec![],
             sizes: vec![8192],
             with_attributes: false,
+            identity_filter: false,
         },
     );
     do_tree(
@@ -1141,6 +1209,7 @@ fn corpus(cx: &mut Ctx) {
             extras: vec![],
             sizes: vec![8192],
             with_attributes: false,
+            identity_filter: false,
         },
     );
     // export-ignore and eol conversion via .gitattributes in the tree
@@ -1170,6 +1239,28 @@ fn corpus(cx: &mut Ctx) {
             extras: vec![],
             sizes: vec![8192],
             with_attributes: true,
+            identity_filter: false,
+        },
+    );
+    // blobs that reach write_stream() through a filter program: unknown length, short reads (bursts)
+    do_tree(
+        cx,
+        &TreeCase {
+            items: vec![
+                Item::File { name: b".gitattributes".to_vec(), exec: false, content: Content::Hex(b"*.burst filter=burst\n".to_vec()) },
+                Item::File { name: b"small.burst".to_vec(), exec: false, content: Content::Lcg(11, 5000) },
+                Item::File { name: b"big.burst".to_vec(), exec: true, content: Content::Lcg(12, 100_000) },
+                Item::File { name: b"empty.burst".to_vec(), exec: false, content: Content::Hex(vec![]) },
+                Item::Dir {
+                    name: b"d".to_vec(),
+                    children: vec![Item::File { name: b"x.burst".to_vec(), exec: false, content: Content::Lcg(13, 70_001) }],
+                },
+                Item::File { name: b"plain".to_vec(), exec: false, content: Content::Hex(b"not filtered".to_vec()) },
+            ],
+            extras: vec![],
+            sizes: vec![8192],
+            with_attributes: true,
+            identity_filter: true,
         },
     );
 }
@@ -1182,6 +1273,12 @@ fn main() {
     git_ok(&repo, &["init", "-q"], None);
     git_ok(&repo, &["config", "core.autocrlf", "false"], None);
     assert_eq!(git_ok(&repo, &["mktree"], Some(b"")), EMPTY_TREE, "the empty tree is written");
+    // an identity smudge filter that hands its output over in bursts (short reads for whoever reads its pipe)
+    let burst = scratch.join("burst.sh");
+    std::fs::write(&burst, "#!/bin/sh\nhead -c 1000\nsleep 0.02\nhead -c 70000\nsleep 0.02\ncat\n").unwrap();
+    std::fs::set_permissions(&burst, std::fs::Permissions::from_mode(0o755)).unwrap();
+    git_ok(&repo, &["config", "filter.burst.smudge", burst.to_str().unwrap()], None);
+    git_ok(&repo, &["config", "filter.burst.clean", "cat"], None);
     let mut cx = Ctx {
         rep: Report::new("C55", &args),
         scratch,
@@ -1195,6 +1292,7 @@ fn main() {
         cx.rep.note("replay: C55 cases are rebuilt from the seed (they need a git repository), re-running corpus + seed");
     }
     corpus(&mut cx);
+    probe_filter_large(&mut cx);
     let trees = args.budget(24, 120);
     for t in 0..trees {
         let mut budget = 4 + r.usize(24);
@@ -1203,7 +1301,8 @@ fn main() {
         let mut items = gen_items(&mut r, 0, &mut budget, args.thorough, &mut big_left);
         if with_attributes {
             items.retain(|it| !matches!(it, Item::File { name, .. } | Item::Link { name, .. } | Item::Gitlink { name } | Item::Dir { name, .. } if name == b".gitattributes"));
-            let attrs: &[u8] = match r.below(3) {
+            let attrs: &[u8] = match if max_file_len(&items) <= 100_000 { r.below(4) } else { r.below(3) } {
+                3 => b"* filter=burst\n.gitattributes -filter\n",
                 0 => b"*.txt text eol=crlf\nMakefile export-ignore\n",
                 1 => b"a* export-ignore\n",
                 _ => b"* text=auto eol=crlf\n",
@@ -1213,7 +1312,8 @@ fn main() {
         let n_extra = if r.chance(1, 2) { 0 } else { 1 + r.usize(3) };
         let extras = (0..n_extra).map(|i| gen_extra(&mut r, i, args.thorough)).collect();
         let sizes = gen_sizes(&mut r);
-        do_tree(&mut cx, &TreeCase { items, extras, sizes, with_attributes });
+        let identity_filter = with_attributes && items.iter().any(|it| matches!(it, Item::File { name, content: Content::Hex(c), .. } if name == b".gitattributes" && c.starts_with(b"* filter=burst")));
+        do_tree(&mut cx, &TreeCase { items, extras, sizes, with_attributes, identity_filter });
         // protocol-level cases in between
         let extras: Vec<Extra> = (0..r.usize(4)).map(|i| gen_extra(&mut r, i, false)).collect();
         do_enc(&mut cx, &extras);
